@@ -143,14 +143,26 @@ end counter
 section limiter
 open KG.Model.LocalLimiter KG.Spec.LocalLimiter KG.Lemmas.LocalLimiter
 
-/-- **The property over every history** of `Sync` (resize, type change, delete, re-add, duplicates,
-    re-submission), limiter-mode switches (`ResetLimiter` local ↔ remote, which keep every cache and limiter:
-    a mode switch is not a reconfiguration of any schema), arrivals and completions on any number of clusters: every answer of the limiter is the
-    one the judge demands — admitted iff fewer than `M` of the requests admitted under the schema since it
-    last became a max-in-flight schema are unfinished, `M` being the limit in force at that moment; never a
-    refusal where no limit applies; never a panic on arrival. -/
-theorem c05_reconfig_bound (ops : List Op) : judge ops (KG.Model.LocalLimiter.run World.init ops) = none :=
+/-- **What the current code does, over every history** of `Sync` (resize, type change, delete, re-add,
+    duplicates, re-submission), limiter-mode switches (`ResetLimiter` local ↔ remote, which keep every cache
+    and limiter), arrivals and completions on any number of clusters: a request arriving under a schema the
+    code treats as max-in-flight is admitted **iff** fewer than `uint32(max)` of the requests admitted under it
+    since it last became one are unfinished (`uint32(max)` being the code's own reading of the limit in force
+    at that moment: for `max < 0` that is 4294967295 — a fact about the code, not a demand of the property);
+    no refusal where no limiter applies; no panic on arrival. -/
+theorem c05_model_exact (ops : List Op) : judgeExact ops (KG.Model.LocalLimiter.run World.init ops) = none :=
   judgeFrom_run rel_init 0 ops
+
+/-- **The property over every such history** (`KG.Spec.LocalLimiter.judge`, the judge the harness applies to
+    the real code). It speaks about schemas as validation admits them — exactly one kind, limit `M = max ≥ 0`,
+    unique names: under a max-in-flight schema with limit `M` a request is refused whenever `M` of the
+    requests admitted under it since it last became a max-in-flight schema are unfinished (`M` the limit in
+    force at that moment), and admitted whenever fewer than `M` are unfinished and none has finished since
+    nothing was in flight (all slots are back once all have finished); admitted under an exempt schema or
+    under no schema; never a panic on arrival. For a negative `max`, several kinds, duplicate names, a
+    missing schema it demands nothing. -/
+theorem c05_reconfig_bound (ops : List Op) : judge ops (KG.Model.LocalLimiter.run World.init ops) = none :=
+  judgeFrom_of_exact PState.init 0 ops _ (c05_model_exact ops)
 
 /-- An arriving request never brings the gateway down (no nil limiter is ever handed out for a non-empty
     schema name, no dangling limiter). -/
@@ -190,6 +202,18 @@ def switchHistory : List Op :=
 example : KG.Model.LocalLimiter.run World.init switchHistory =
     [.synced, .acquired true, .synced, .synced, .acquired false] := by decide
 example : judge switchHistory [.synced, .acquired true, .synced, .synced, .acquired true] = some 4 := by decide
+/-! the property says nothing about a negative `max`: an implementation that refuses (clamps to 0) is accepted
+    by `judge`; only the description of the current code (`judgeExact`: `uint32(-1)` slots) tells them apart.
+    At `max = 2` a refusal with nothing in flight is rejected by the property's judge, an admission of a
+    third request as well. -/
+def negHistory : List Op := [.sync [99] [witnessSchema (some (-1)) none], .acquire [99] [102, 99] true]
+example : judge negHistory [.synced, .acquired false] = none ∧ judge negHistory [.synced, .acquired true] = none ∧
+    judgeExact negHistory [.synced, .acquired false] = some 1 := by decide
+def twoHistory : List Op := [.sync [99] [witnessSchema (some 2) none], .acquire [99] [102, 99] true,
+  .acquire [99] [102, 99] true, .acquire [99] [102, 99] true]
+example : judge twoHistory [.synced, .acquired false] = some 1 ∧
+    judge twoHistory [.synced, .acquired true, .acquired true, .acquired true] = some 3 ∧
+    judge twoHistory [.synced, .acquired true, .acquired true, .acquired false] = none := by decide
 example : KG.Model.LocalLimiter.Reachable (exec World.init witness) := ⟨witness, rfl⟩
 example : ¬ addresses (exec World.init witness) (.acquire [99] [120] true) [99] [102, 99] := by
   simp [addresses]
